@@ -629,6 +629,9 @@ func libStubs() map[string]StubFn {
 		zero := &Term{Sort: BoolSort, S: fmt.Sprintf("(= %s 0)", z.S), size: 2}
 		c.Return(Ite(neg, BVC(64, ^uint64(0)), Ite(zero, BVC(64, 0), BVC(64, 1))))
 	}
+	// formatting of constants only feeds error messages
+	m["invoke:go/constant.Value.ExactString"] = func(c *CallCtx) { c.Return(StrC("<constant>")) }
+	m["invoke:go/constant.Value.String"] = func(c *CallCtx) { c.Return(StrC("<constant>")) }
 	m["invoke:go/constant.Value.Kind"] = func(c *CallCtx) { c.Return(BVC(64, uint64(constKindOf(c.args[0])))) }
 	// BinaryOp on two integer constants: exact integer arithmetic; x / y (token.QUO) is an exact quotient of kind
 	// Float (go/constant keeps it as a fraction), x /= y (token.QUO_ASSIGN) is Go's truncated integer division;
@@ -707,6 +710,29 @@ func libStubs() map[string]StubFn {
 		default:
 			unsupported("go/constant.Compare operator %v", token.Token(opT.U))
 		}
+	}
+	// Shift of an integer constant: an uninterpreted function of (x, count) per direction. The harness' oracle is
+	// go/constant.Shift itself, so only congruence is needed (which value is shifted, by how much, in which direction).
+	m["go/constant.Shift"] = func(c *CallCtx) {
+		x := constInt(c.args[0])
+		opT := c.args[1].(*Term)
+		if !opT.Const {
+			unsupported("go/constant.Shift with a symbolic operator")
+		}
+		name := "const_shl"
+		switch token.Token(opT.U) {
+		case token.SHL:
+		case token.SHR:
+			name = "const_shr"
+		default:
+			c.Panic(Iface{T: runtimeErrorType, V: StrC("invalid shift")})
+			return
+		}
+		c.ex.declareUF(name, []Sort{IntSort, BVSort(64)}, IntSort)
+		c.Return(Iface{T: constIntModelType, V: app(IntSort, name, x, c.args[2].(*Term))})
+	}
+	m["go/constant.MakeUint64"] = func(c *CallCtx) {
+		c.Return(Iface{T: constIntModelType, V: app(IntSort, "bv2nat", c.args[0].(*Term))})
 	}
 	m["go/constant.MakeBool"] = func(c *CallCtx) { c.Return(Iface{T: constBoolModelType, V: c.args[0]}) }
 	m["go/constant.BoolVal"] = func(c *CallCtx) {
